@@ -57,23 +57,35 @@ def trees(ctx):
         cg = reg[op].codegen
         q = f"codegen.{cg}"
         fn = ctx.func(q)
-        it = tree_interp(repo, 3)
-        try:
-            out = it.run(q, args)
-        except NoValue as exc:
-            raise Unknown(q, str(exc), fn)
-        if out[0] == "raise":
-            ctx.violation(q, f"{cg} raises {out[1]} on symbolic multivector operands", fn)
-        elif not isinstance(out[1], T):
-            raise Unknown(q, f"evaluates to {out[1]!r}", fn)
-        elif out[1] == want:
-            ctx.ok(q, fn, normal_form=repr(out[1]), definition=text)
-        else:
-            ctx.violation(q, f"{cg} denotes [{out[1]!r}] but the definition {text} denotes [{want!r}]: they differ in "
-                             f"some Clifford algebra (free-algebra normal forms differ)", fn, got=repr(out[1]), expected=repr(want))
+        # grade / size cells of the operands (what a shortcut could be keyed on): the definition is the same in all of them
+        full = (0, 1, 2, 3)
+        cells = [("", {"grades": {"x": full, "y": full}, "__len__": {"x": 8, "y": 8}}), ("second operand a pure scalar", {"grades": {"x": (1, 2), "y": (0,)}, "__len__": {"x": 4, "y": 1}}),
+                 ("first operand a pure scalar", {"grades": {"x": (0,), "y": (0, 2)}, "__len__": {"x": 1, "y": 4}}),
+                 ("mixed parity operands", {"grades": {"x": (0, 1), "y": (1, 2, 3)}, "__len__": {"x": 4, "y": 7}})]
+        for label, facts in cells:
+            c = q + (f"#{label}" if label else "")
+            it = tree_interp(repo, 3)
+            if facts:
+                it.tvar_facts = facts
+            try:
+                out = it.run(q, args)
+            except NoValue as exc:
+                if label:
+                    continue            # the function does not look at this: covered by the generic cell
+                raise Unknown(c, str(exc), fn)
+            if out[0] == "raise":
+                ctx.violation(c, f"{cg} raises {out[1]} on symbolic multivector operands", fn)
+            elif not isinstance(out[1], T):
+                raise Unknown(c, f"evaluates to {out[1]!r}", fn)
+            elif out[1] == want:
+                ctx.ok(c, fn, normal_form=repr(out[1]), definition=text)
+            else:
+                ctx.violation(c, f"{cg} denotes [{out[1]!r}] but the definition {text} denotes [{want!r}]" + (f" ({label})" if label else "") +
+                                 ": they differ in some Clifford algebra (free-algebra normal forms differ)", fn, got=repr(out[1]), expected=repr(want))
 
 
-@rule("C06.filter", props=["C06", "C12"], min_instances=3, mutants=[
+@rule("C06.filter", props=["C06", "C12"], min_instances=4, mutants=[
+    ("a coefficient that vanishes at one sample point is dropped", ("operator_dict", "if (simpv := self.algebra.simp_func(v)))", "if not (isinstance(v, Expr) and v.free_symbols and v.subs({s: 7 for s in v.free_symbols}) == 0) and (simpv := self.algebra.simp_func(v)))")),
     ("filter tests v but stores the neighbour", ("operator_dict", "keysvalues = tuple((k, simpv) for k, v in zip(keys_out, values_out) if (simpv := self.algebra.simp_func(v)))",
                                                  "keysvalues = tuple((k, simpv) for (k, v), simpv in zip(zip(keys_out, values_out), map(self.algebra.simp_func, reversed(list(values_out)))) if self.algebra.simp_func(v))")),
     ("filter drops the truthy ones", ("operator_dict", "if (simpv := self.algebra.simp_func(v)))", "if not (simpv := self.algebra.simp_func(v)))")),
@@ -117,6 +129,37 @@ def filter_rule(ctx):
             ctx.violation(c, f"filter({keys}, {vals}) with simp_func {simp} returns {got}, expected {want}: a blade is "
                              f"dropped although its coefficient is not identically zero, kept although it is, or a "
                              f"value is paired with another key", fn, got=got, expected=want)
+
+
+    # a coefficient is dropped ONLY on the verdict of simp_func: sympy-expression-like coefficients that evaluate to 0
+    # when probed at a point (subs / evalf / xreplace), but which simp_func does not simplify to zero, must all be kept
+    c = f"{q}#probe-resistant"
+    probes = []
+
+    def expr(name):
+        o = Obj("Expr", {"fmt": name, "name": name, "free_symbols": {Obj("Symbol", {"fmt": "s_" + name, "name": "s_" + name})},
+                         "is_zero": None, "is_number": False})
+        for m in ("subs", "evalf", "xreplace", "n", "simplify", "expand", "doit"):
+            o.methods[m] = lambda *a, m=m, **k: (probes.append(m), 0)[1]
+        o.methods["compare"] = lambda op, other: (probes.append("== " + repr(other)), Unk("sympy relational"))[1]
+        return o
+    vals = [expr("W1"), expr("W2"), expr("W3")]
+    me = Obj("OperatorDict", {"algebra": Obj("algebra", {"simp_func": Obj("simp_func", call=lambda v: Val("S" + str(v)))})})
+    it = make_interp(repo)
+    it.instance_classes["OperatorDict"] = "operator_dict.OperatorDict"
+    try:
+        out = it.run(q, [me, (1, 2, 4), list(vals)])
+    except NoValue as exc:
+        raise Unknown(c, str(exc), fn)
+    kept = tuple(out[1][0]) if out[0] == "return" and isinstance(out[1], tuple) else None
+    if out[0] == "raise":
+        ctx.violation(c, f"filter raises {out[1]} on sympy-like coefficients", fn)
+    elif kept != (1, 2, 4):
+        ctx.violation(c, f"filter keeps the blades {kept} of (1, 2, 4) although simp_func finds every coefficient non-zero; it probed the "
+                         f"coefficients with {sorted(set(probes))}: a blade is dropped because its coefficient vanishes at some point, not "
+                         f"because it is identically zero", fn)
+    else:
+        ctx.ok(c, fn, probes=sorted(set(probes)))
 
 
 @rule("C06.filter-sites", props=["C06", "C12", "C16"], min_instances=9, mutants=[
